@@ -162,6 +162,49 @@ pub enum Cb {
     Mutate,
     MutateRoot,
     Finalize,
+    /// `Arena::map_root` (same root type): `root_barrier()` + a callback that owns the root
+    MapRoot,
+    /// `Arena::try_map_root` returning `Ok(root)`
+    TryMapRootOk,
+    /// `Arena::try_map_root` returning `Err(())`: the arena is consumed and dropped
+    TryMapRootErr,
+    /// the constructor callback of `Arena::new`
+    NewCtor,
+    /// the constructor callback of `Arena::try_new`, returning `Ok(root)`
+    TryNewOk,
+    /// … returning `Err(())`: everything allocated so far is released
+    TryNewErr,
+}
+
+impl Cb {
+    pub const ALL_NAMES: [(&'static str, Cb); 9] = [
+        ("mutate", Cb::Mutate),
+        ("mutate_root", Cb::MutateRoot),
+        ("finalize", Cb::Finalize),
+        ("map_root", Cb::MapRoot),
+        ("try_map_root_ok", Cb::TryMapRootOk),
+        ("try_map_root_err", Cb::TryMapRootErr),
+        ("new_ctor", Cb::NewCtor),
+        ("try_new_ok", Cb::TryNewOk),
+        ("try_new_err", Cb::TryNewErr),
+    ];
+    pub fn name(self) -> &'static str {
+        Cb::ALL_NAMES.iter().find(|(_, k)| *k == self).map(|(n, _)| *n).unwrap()
+    }
+    /// the callback may replace what the root holds
+    pub fn root_mut(self) -> bool {
+        !matches!(self, Cb::Mutate | Cb::Finalize)
+    }
+    pub fn is_ctor(self) -> bool {
+        matches!(self, Cb::NewCtor | Cb::TryNewOk | Cb::TryNewErr)
+    }
+    pub fn is_map(self) -> bool {
+        matches!(self, Cb::MapRoot | Cb::TryMapRootOk | Cb::TryMapRootErr)
+    }
+    /// the API call fails when the callback leaves normally: the arena is dropped
+    pub fn fails(self) -> bool {
+        matches!(self, Cb::TryMapRootErr | Cb::TryNewErr)
+    }
 }
 
 #[derive(Clone, Copy, Debug, PartialEq, Eq, Hash)]
@@ -230,9 +273,7 @@ impl fmt::Display for Op {
                 };
                 write!(f, "collect {} {} {}", method.name(), c, fl)
             }
-            Op::Enter(Cb::Mutate) => write!(f, "enter mutate"),
-            Op::Enter(Cb::MutateRoot) => write!(f, "enter mutate_root"),
-            Op::Enter(Cb::Finalize) => write!(f, "enter finalize"),
+            Op::Enter(k) => write!(f, "enter {}", k.name()),
             Op::Leave { panic: false } => write!(f, "leave"),
             Op::Leave { panic: true } => write!(f, "leave panic"),
             Op::Alloc { leaf, slots } => {
@@ -299,9 +340,7 @@ pub fn parse_op(ws: &[&str]) -> Option<Op> {
                 Some((k.parse().ok()?, j.parse().ok()?))
             },
         },
-        ["enter", "mutate"] => Op::Enter(Cb::Mutate),
-        ["enter", "mutate_root"] => Op::Enter(Cb::MutateRoot),
-        ["enter", "finalize"] => Op::Enter(Cb::Finalize),
+        ["enter", k] => Op::Enter(Cb::ALL_NAMES.iter().find(|(n, _)| n == k).map(|(_, c)| *c)?),
         ["leave"] => Op::Leave { panic: false },
         ["leave", "panic"] => Op::Leave { panic: true },
         ["alloc", k, rest @ ..] => {
